@@ -15,7 +15,7 @@ CONSTANTS
   MaxI = 1000000
   IncAlgo = "fixed"
   Ops = {"new", "inc", "copy", "ustat"}
-INVARIANTS TypeOK Sorted CachesCoherent PathIndependence TwinAgreement Inc1Agree Proportional
+INVARIANTS TypeOK Sorted CachesCoherent PathIndependence TwinAgreement EvidenceProposerAgrees Inc1Agree Proportional
            Conservation HashIgnoresAccum HashOrderIndependent UpdateOrderIndependent Saturates
 PROPERTIES HashStable UpdateStatusRule
 ACTION_CONSTRAINT Edge
